@@ -564,7 +564,12 @@ func genHist(r *vh.Rand) in {
 			ntx++
 		case x < 45:
 			used = append(used, req)
-			ops = append(ops, op{K: "set", I: r.Intn(ntx), Req: strings.Join(req, "."), V: genFor(req)})
+			ti := r.Intn(ntx)
+			ops = append(ops, op{K: "set", I: ti, Req: strings.Join(req, "."), V: genFor(req)})
+			// read back at once through the same transaction: the request itself and the requests of the rules below it
+			if r.Chance(3, 4) {
+				ops = append(ops, readBacks(reqs, req, ti, 3)...)
+			}
 		case x < 55:
 			ops = append(ops, op{K: "unset", I: r.Intn(ntx), Req: strings.Join(req, ".")})
 		case x < 85:
@@ -587,6 +592,106 @@ func genHist(r *vh.Rand) in {
 	return in{Rules: rules, Ops: ops}
 }
 
+// Get operations for req and for every rule request that extends req with literal parts only
+func readBacks(reqs [][]string, req []string, tx int, max int) []op {
+	ops := []op{{K: "get", I: tx, Req: strings.Join(req, ".")}}
+	for _, pat := range reqs {
+		if len(ops) > max || len(pat) <= len(req) {
+			continue
+		}
+		ok := true
+		for k := range req {
+			if !strings.HasPrefix(pat[k], "{") && pat[k] != req[k] {
+				ok = false
+			}
+		}
+		full := append([]string{}, req...)
+		for _, sfx := range pat[len(req):] {
+			if strings.HasPrefix(sfx, "{") {
+				ok = false
+			}
+			full = append(full, sfx)
+		}
+		if ok {
+			ops = append(ops, op{K: "get", I: tx, Req: strings.Join(full, ".")})
+		}
+	}
+	return ops
+}
+
+// views whose rules under one request prefix write to NESTED storage paths (p and p.q), in both request-string orders
+// and as nested content rules; the Set value carries data for all of them; everything is read back at once and again
+// by a fresh transaction after the commit
+func genNested(r *vh.Rand) in {
+	for {
+		pre := r.Pick(reqKeys)
+		perm := r.Perm(len(reqKeys))
+		k1, k2, k3 := reqKeys[perm[0]], reqKeys[perm[1]], reqKeys[perm[2]]
+		if k1 > k2 {
+			k1, k2 = k2, k1
+		}
+		outer := r.Pick(stoKeys)
+		inner := outer + "." + r.Pick(stoKeys)
+		acc := func() string {
+			if r.Chance(1, 6) {
+				return r.Pick(accs)
+			}
+			return "read-write"
+		}
+		var rules []rule
+		switch r.Intn(3) {
+		case 0: // the smaller request string goes to the inner storage path
+			rules = []rule{{Req: pre + "." + k1, Sto: inner, Acc: acc()}, {Req: pre + "." + k2, Sto: outer, Acc: acc()}}
+		case 1: // the smaller request string goes to the outer storage path
+			rules = []rule{{Req: pre + "." + k1, Sto: outer, Acc: acc()}, {Req: pre + "." + k2, Sto: inner, Acc: acc()}}
+		default: // parent with content: request pre is matched in full by the parent and as a prefix by the child
+			rules = []rule{{Req: pre, Sto: outer, Acc: acc(), Content: []rule{{Req: k1, Sto: r.Pick(stoKeys), Acc: acc()}}}}
+		}
+		if r.Bool() {
+			for i, j := 0, len(rules)-1; i < j; i, j = i+1, j-1 {
+				rules[i], rules[j] = rules[j], rules[i]
+			}
+		}
+		if r.Chance(1, 3) {
+			other := "q"
+			if outer == "q" {
+				other = "r"
+			}
+			rules = append(rules, rule{Req: pre + "." + k3, Sto: other + "." + r.Pick(stoKeys), Acc: acc()})
+		}
+		if _, err := mkView(rules); err != nil {
+			continue
+		}
+		var reqs [][]string
+		flatReqs("", rules, &reqs)
+		val := map[string]interface{}{}
+		for _, pat := range reqs {
+			if len(pat) == 2 {
+				if r.Chance(1, 3) {
+					val[pat[1]] = scalar(r)
+				} else {
+					val[pat[1]] = map[string]interface{}{r.Pick(reqKeys): scalar(r), r.Pick(stoKeys): scalar(r)}
+				}
+			}
+		}
+		if len(val) == 0 || r.Chance(1, 10) {
+			val[r.Pick(reqKeys)] = scalar(r)
+		}
+		ops := []op{{K: "new"}, {K: "set", Req: pre, V: val}}
+		ops = append(ops, readBacks(reqs, []string{pre}, 0, 4)...)
+		if r.Chance(1, 2) { // a second, narrower write afterwards
+			pat := reqs[r.Intn(len(reqs))]
+			ops = append(ops, op{K: "set", Req: strings.Join(pat, "."), V: genValue(r, 1)})
+			ops = append(ops, readBacks(reqs, pat, 0, 3)...)
+		}
+		ops = append(ops, op{K: "commit"}, op{K: "new"})
+		for _, g := range readBacks(reqs, []string{pre}, 1, 4) {
+			ops = append(ops, g)
+		}
+		return in{Rules: rules, Ops: ops}
+	}
+}
+
 func fixed() []in {
 	return []in{
 		// write-only data never leaks, read-only rules are never written
@@ -600,6 +705,13 @@ func fixed() []in {
 		{Rules: []rule{{Req: "a.{x}", Sto: "p.{x}"}, {Req: "b", Sto: "q.r"}},
 			Ops: []op{{K: "new"}, {K: "new"}, {K: "set", Req: "a.c", V: int64(1)}, {K: "set", I: 1, Req: "b", V: map[string]interface{}{"d": int64(2)}},
 				{K: "commit", I: 1}, {K: "commit"}, {K: "new"}, {K: "get", I: 2, Req: "a.c"}, {K: "get", I: 2, Req: "b"}}},
+		// nested storage paths under one request prefix: the inner path belongs to the smaller / the larger request string
+		{Rules: []rule{{Req: "a.b", Sto: "p.q"}, {Req: "a.c", Sto: "p"}},
+			Ops: []op{{K: "new"}, {K: "set", Req: "a", V: map[string]interface{}{"b": int64(1), "c": map[string]interface{}{"d": int64(2)}}},
+				{K: "get", Req: "a.b"}, {K: "get", Req: "a.c"}, {K: "get", Req: "a"}, {K: "commit"}, {K: "new"}, {K: "get", I: 1, Req: "a.b"}, {K: "get", I: 1, Req: "a"}}},
+		{Rules: []rule{{Req: "a.b", Sto: "p"}, {Req: "a.c", Sto: "p.q"}},
+			Ops: []op{{K: "new"}, {K: "set", Req: "a", V: map[string]interface{}{"c": int64(1), "b": map[string]interface{}{"d": int64(2)}}},
+				{K: "get", Req: "a.c"}, {K: "get", Req: "a.b"}, {K: "get", Req: "a"}, {K: "commit"}, {K: "new"}, {K: "get", I: 1, Req: "a.c"}, {K: "get", I: 1, Req: "a"}}},
 		// nested rules and a prefix request with a value covering the suffixes
 		{Rules: []rule{{Req: "a", Sto: "p", Content: []rule{{Req: "b", Sto: "q"}, {Req: "c", Sto: "r", Acc: "read"}}}},
 			Ops: []op{{K: "new"}, {K: "set", Req: "a", V: map[string]interface{}{"b": int64(1), "d": int64(2)}}, {K: "get", Req: "a"}, {K: "get", Req: "a.b"}, {K: "set", Req: "a.c", V: int64(5)},
@@ -613,7 +725,11 @@ func gen(r *vh.Rand, tier string, n int) []in {
 	}
 	ins := fixed()
 	for k := 0; k < n; k++ {
-		ins = append(ins, genHist(r))
+		if k%3 == 2 {
+			ins = append(ins, genNested(r))
+		} else {
+			ins = append(ins, genHist(r))
+		}
 	}
 	return ins
 }
